@@ -5,6 +5,7 @@
 package main
 
 import (
+	"encoding/json"
 	"flag"
 	"fmt"
 	"go/ast"
@@ -20,9 +21,13 @@ import (
 
 var fset = token.NewFileSet()
 
+// genFail: a generator met source outside its subset. Generators are independent: one that fails leaves its
+// old output in place and is reported in factgen_status.json, so that only the properties whose theorems import
+// its output are affected (a change to ledger.go must not break the check of the table filter).
+type genFail struct{ msg string }
+
 func die(format string, a ...interface{}) {
-	fmt.Fprintf(os.Stderr, "factgen: "+format+"\n", a...)
-	os.Exit(1)
+	panic(genFail{fmt.Sprintf(format, a...)})
 }
 
 func parseFile(path string) *ast.File {
@@ -603,19 +608,58 @@ func main() {
 	out := flag.String("out", "", "output directory for Gen/*.lean")
 	flag.Parse()
 	if *out == "" {
-		die("-out required")
+		fmt.Fprintln(os.Stderr, "factgen: -out required")
+		os.Exit(2)
 	}
 	os.MkdirAll(*out, 0o755)
-	genCliFilter(*repo, *out)
-	genConsts(*repo, *out)
-	genStats(*repo, *out)
-	genBatcherSwitch(*repo, *out)
-	genStages(*repo, *out)
-	genClientSites(*repo, *out)
-	genRetry(*repo, *out)
-	genWiring(*repo, *out)
-	genConds(*repo, *out)
-	genKinesisAdd(*repo, *out)
-	genOtherAdds(*repo, *out)
+	gens := []struct {
+		name  string
+		files []string
+		run   func(repo, out string)
+	}{
+		{"cliFilter", []string{"CliFilter.lean"}, genCliFilter},
+		{"consts", []string{"Consts.lean"}, genConsts},
+		{"stats", []string{"Stats.lean"}, genStats},
+		{"batcherSwitch", []string{"BatcherSwitch.lean"}, genBatcherSwitch},
+		{"stages", []string{"Stages.lean"}, genStages},
+		{"clientSites", []string{"ClientSites.lean"}, genClientSites},
+		{"retry", []string{"Retry.lean", "zz_gen_policies.go"}, genRetry},
+		{"wiring", []string{"Wiring.lean"}, genWiring},
+		{"conds", []string{"Conds.lean"}, genConds},
+		{"kinesisAdd", []string{"KinesisAdd.lean"}, genKinesisAdd},
+		{"otherAdds", []string{"OtherAdds.lean"}, genOtherAdds},
+		{"ledgerSrc", []string{"LedgerSrc.lean"}, genLedgerSrc},
+	}
+	status := map[string]interface{}{}
+	failed := 0
+	for _, g := range gens {
+		msg := func() (m string) {
+			defer func() {
+				if r := recover(); r != nil {
+					if gf, ok := r.(genFail); ok {
+						m = gf.msg
+						return
+					}
+					m = fmt.Sprintf("translator crashed: %v", r)
+				}
+			}()
+			g.run(*repo, *out)
+			return ""
+		}()
+		if msg != "" {
+			failed++
+			for _, f := range g.files {
+				os.Remove(filepath.Join(*out, f)) // no partial output
+			}
+			fmt.Fprintf(os.Stderr, "factgen: %s FAILED: %s\n", g.name, msg)
+		}
+		status[g.name] = map[string]interface{}{"files": g.files, "error": msg}
+	}
+	js, _ := json.MarshalIndent(status, "", " ")
+	os.WriteFile(filepath.Join(*out, "factgen_status.json"), js, 0o644)
+	if failed > 0 {
+		fmt.Printf("factgen: %d of %d generators failed\n", failed, len(gens))
+		os.Exit(3)
+	}
 	fmt.Println("factgen: ok")
 }
